@@ -286,11 +286,17 @@ func (r *Raft) onSnapshotTaken(t snapTaken) {
 		nowCompact, canCompact := t.meta.index, t.meta.index
 		if r.state == Leader {
 			for _, repl := range r.ldr.logReaders() {
-				if repl.status.matchIndex < nowCompact {
-					nowCompact = repl.status.matchIndex
+				matchIndex := repl.status.matchIndex
+				if repl.status.removed {
+					// a retiring replication gets no new view of the log any more:
+					// nothing is removed while it is still running
+					matchIndex = 0
 				}
-				if repl.status.noContact.IsZero() && repl.status.matchIndex < canCompact {
-					canCompact = repl.status.matchIndex
+				if matchIndex < nowCompact {
+					nowCompact = matchIndex
+				}
+				if repl.status.noContact.IsZero() && matchIndex < canCompact {
+					canCompact = matchIndex
 				}
 			}
 		}
